@@ -865,8 +865,9 @@ _CMPOP = {FM.EQUALITY: "CEq", FM.INEQUALITY: "CNe", FM.LESS: "CLt", FM.LESS_OR_E
           FM.GREATER: "CGt", FM.GREATER_OR_EQUAL: "CGe"}
 
 
-def req_expr(e):
-    """static_requirements expression -> Bounds.Model.expr with (EVar 0) = $static_size_in_bits."""
+def req_expr(e, user=False):
+    """static_requirements expression -> Bounds.Model.expr with (EVar 0) = $static_size_in_bits.
+    user=True (user-defined externals): also boolean ==/!=, ?:, $max."""
     w = e.which_expression
     if w == "constant":
         return "(EConst %s)" % _z(e.constant.value)
@@ -881,7 +882,17 @@ def req_expr(e):
         raise TranslatorError("builtin %s" % n)
     if w == "function":
         f = e.function.function
-        a = [req_expr(x) for x in e.function.args]
+        a = [req_expr(x, user) for x in e.function.args]
+        if user and f in (FM.EQUALITY, FM.INEQUALITY) and len(a) == 2:
+            kinds = set(x.type.which_type for x in e.function.args)
+            if kinds == {"boolean"}:
+                return "(EBop %s %s %s)" % ("BEq" if f == FM.EQUALITY else "BNe", a[0], a[1])
+            if kinds != {"integer"}:
+                raise TranslatorError("comparison of %s in static_requirements" % sorted(kinds))
+        if user and f == FM.CHOICE and len(a) == 3:
+            return "(EChoice %s %s %s)" % tuple(a)
+        if user and f == FM.MAXIMUM:
+            return "(EMax [%s])" % "; ".join(a)
         if f in _CMPOP and len(a) == 2:
             return "(ECmp %s %s %s)" % (_CMPOP[f], a[0], a[1])
         if f in (FM.AND, FM.OR) and len(a) == 2:
@@ -936,8 +947,9 @@ class LayoutTranslator:
     def __init__(self, ir, module_index=0):
         self.ir = ir
         self.mod = ir.module[module_index]
-        self.enum_idx, self.struct_idx = {}, {}
+        self.enum_idx, self.struct_idx, self.ext_idx = {}, {}, {}
         self.enums, self.structs = [], []   # (typedef, defaults path)
+        self.externals = []                 # user-defined externals of every module but the prelude
 
     def collect(self, td, path):
         own = self.default_border(td.attribute)
@@ -950,7 +962,8 @@ class LayoutTranslator:
             self.struct_idx[key] = len(self.structs)
             self.structs.append((td, p))
         elif td.has_field("external"):
-            raise OutOfModel("user-defined-external")
+            self.ext_idx[key] = len(self.externals)
+            self.externals.append(td)
         for sub in td.subtype:
             self.collect(sub, p)
 
@@ -995,6 +1008,8 @@ class LayoutTranslator:
             return "(REnum %d)" % self.enum_idx[key]
         if key in self.struct_idx:
             return "(RStruct %d)" % self.struct_idx[key]
+        if key in self.ext_idx:
+            return "(RExt %d)" % self.ext_idx[key]
         raise OutOfModel("type-reference-" + ".".join(key[1:]))
 
     def ftype(self, t):
@@ -1158,6 +1173,10 @@ class LayoutTranslator:
                 if pt.which_type != "atomic_type":
                     raise OutOfModel("array-parameter")
                 b = ir_util.constant_value(pt.size_in_bits) if pt.has_field("size_in_bits") else None
+                pkey = (pt.atomic_type.reference.canonical_name.module_file,) + tuple(pt.atomic_type.reference.canonical_name.object_path)
+                if pkey in self.ext_idx:
+                    # with an explicit width expression_bounds raises 'Unknown integral type'; without one the early check rejects
+                    raise OutOfModel("parameter-of-user-defined-external-type")
                 params.append("(%s, %s)" % (self.tref(pt.atomic_type.reference), "None" if b is None else "Some %s" % _z(b)))
             unit = int(td.addressable_unit)
             if unit not in (1, 8):
@@ -1169,9 +1188,33 @@ class LayoutTranslator:
                 ";\n    ".join(self.field(f) for f in td.structure.field),
                 self.attrs(td.attribute), "; ".join(params)))
         declared, used = self.back_ends()
-        return "(mk_module %s\n [%s]\n [%s]\n [%s] [%s])" % (
+        return "(mk_module %s\n [%s]\n [%s]\n [%s] [%s]\n [%s])" % (
             self.attrs(self.mod.attribute), ";\n  ".join(enums), ";\n  ".join(structs),
-            "; ".join(coq_str(x) for x in declared), "; ".join(coq_str(x) for x in used))
+            "; ".join(coq_str(x) for x in declared), "; ".join(coq_str(x) for x in used),
+            ";\n  ".join(self.external(td) for td in self.externals))
+
+    def int_attr(self, attrs, name):
+        """The value ir_util.get_integer_attribute would read (first unqualified non-default attribute of that name)."""
+        a = self.explicit(attrs, name)
+        if a is None or not a.value.has_field("expression"):
+            return None
+        v = ir_util.constant_value(a.value.expression)
+        return None if v is None or isinstance(v, bool) else v
+
+    def external(self, td):
+        """mk_extdef: what [addressable_unit_size] / [fixed_size_in_bits] / [static_requirements] of a user-defined external say."""
+        self.n_ext_defs = getattr(self, "n_ext_defs", 0) + 1
+        o = lambda v: "None" if v is None else "(Some %s)" % _z(v)
+        req = self.explicit(td.attribute, "static_requirements")
+        rq = "None"
+        if req is not None and req.value.has_field("expression") and req.value.expression.type.which_type == "boolean":
+            try:
+                rq = "(Some %s)" % req_expr(req.value.expression, user=True)
+            except TranslatorError as ex:
+                raise OutOfModel("static_requirements-expression:" + str(ex).split(" ")[0])
+        return "(mk_extdef %s %s %s %s %s)" % (
+            coq_str(td.name.name.text), o(self.int_attr(td.attribute, "addressable_unit_size")),
+            o(self.int_attr(td.attribute, "fixed_size_in_bits")), rq, self.attrs(td.attribute))
 
 
 # ----------------------------------------------------------------------------
@@ -1461,7 +1504,7 @@ class ExtTranslator:
 
 # messages of checks inside normalize_and_verify / check_constraints that the Layout model does not mirror
 UNMODELLED_PREFIXES = (
-    "Static references must", "Expected '", "Only values '1'", "Attribute 'expected_back_ends'",
+    "Static references must", "Attribute 'expected_back_ends'",
 )
 
 
